@@ -33,6 +33,12 @@ def file_of(k):
     return (rf.file_ms(k, N, D, FC) - BASE_MS) // FC
 
 
+def two_periods(kind):
+    """first session recording two separate periods: files 10 and 14, or 10 and 15 (second half of a subdirectory)"""
+    second = 14 if kind == "two_periods" else 15
+    return first_of_file(10), [("w", 0, 2), ("w", first_of_file(second) - first_of_file(10), 2)]
+
+
 def session_menu(state, depth):
     """enumerate (dir, start_kind, writes_kind) / (dir, 'mismatch', name) choices for the next session.
     state: dict dir -> set(file indices recorded)"""
@@ -41,10 +47,13 @@ def session_menu(state, depth):
     dirs = DIRS[: min(depth + 1, 3)]
     for dname in dirs:
         mine = state.get(dname, set())
-        for sk in ("later", "next_free", "earlier", "gap", "inside_finalized"):
+        for sk in ("later", "next_free", "earlier", "gap", "gap_last", "inside_finalized"):
             if not allf and sk != "later":
                 continue
-            if sk == "gap" and not [f for f in range(min(allf) + 1, max(allf)) if f not in allf]:
+            free = [f for f in range(min(allf) + 1, max(allf)) if f not in allf] if allf else []
+            if sk == "gap" and not free:
+                continue
+            if sk == "gap_last" and len(free) < 2:
                 continue
             if sk == "inside_finalized" and not mine:
                 continue
@@ -73,9 +82,9 @@ def build_session(state, choice):
     elif sk == "earlier":
         f0 = min(allf) - 4
         start = first_of_file(f0)
-    elif sk == "gap":
+    elif sk in ("gap", "gap_last"):
         free = [f for f in range(min(allf) + 1, max(allf)) if f not in allf]
-        f0 = free[0]
+        f0 = free[0] if sk == "gap" else free[-1]
         start = first_of_file(f0)
     else:  # inside_finalized: second sample of my newest finalized file
         f0 = max(mine)
@@ -115,15 +124,15 @@ def enumerate_histories(max_sessions):
         if depth == max_sessions:
             return
         if not prefix:
-            menu = [("A", "later", wk) for wk in ("one_file", "cross", "two_periods")]
+            menu = [("A", "later", wk) for wk in ("one_file", "cross", "two_periods", "two_periods_b")]
         else:
             menu = session_menu(state, depth)
         for ch in menu:
             if ch[1] == "mismatch":
                 rec(prefix + [ch], state, depth + 1)
                 continue
-            if ch[2] == "two_periods":
-                dname, start, ops = "A", first_of_file(10), [("w", 0, 2), ("w", first_of_file(14) - first_of_file(10), 2)]
+            if ch[2] in ("two_periods", "two_periods_b"):
+                dname, start, ops = ("A",) + two_periods(ch[2])
             else:
                 b = build_session(state, ch)
                 if b is None:
@@ -200,8 +209,8 @@ def run_history(args):
                 part["transitions"] += 1
                 trace.append(("mismatch", dname, name))
                 continue
-            if ch[2] == "two_periods":
-                start, ops = first_of_file(10), [("w", 0, 2), ("w", first_of_file(14) - first_of_file(10), 2)]
+            if ch[2] in ("two_periods", "two_periods_b"):
+                start, ops = two_periods(ch[2])
             else:
                 b = build_session(state, ch)
                 assert b is not None, ch
